@@ -218,7 +218,20 @@ func f1BuildOutlines(kind byte, n int, seed uint64) sfnt.Outlines {
 			for i := range o.GIDToCID {
 				o.GIDToCID[i] = cid.CID(i)
 			}
-			o.FontMatrices = []matrix.Matrix{matrix.Identity}
+			// several font dicts; FD matrices identity / all scaled / different per FD
+			nFD := 1 + int(seed/12)%3
+			if nFD > n {
+				nFD = n
+			}
+			scales := [][]float64{{1, 1, 1}, {0.001, 0.001, 0.001}, {0.001, 0.0005, 0.002}}[int(seed%3)]
+			o.Private, o.FontMatrices = nil, nil
+			for k := 0; k < nFD; k++ {
+				o.Private = append(o.Private, &type1.PrivateDict{BlueValues: []funit.Int16{-10, 0, funit.Int16(700 + 10*k), funit.Int16(710 + 10*k)},
+					BlueScale: 0.039625, BlueShift: 7, BlueFuzz: 1})
+				q := scales[k]
+				o.FontMatrices = append(o.FontMatrices, matrix.Matrix{q, 0, 0, q, 0, 0})
+			}
+			o.FDSelect = func(gid glyph.ID) int { return int(gid) % nFD }
 		} else {
 			o.Encoding = make([]glyph.ID, 256)
 			for i := 1; i < n && i < 200; i++ {
@@ -278,7 +291,11 @@ func f1OutlineToken(o sfnt.Outlines) string {
 			parts = append(parts, []byte(fmt.Sprint(*p)))
 		}
 		if o.ROS != nil {
-			parts = append(parts, []byte(fmt.Sprint(*o.ROS, o.GIDToCID, o.FontMatrices)))
+			fds := make([]int, len(o.Glyphs))
+			for i := range fds {
+				fds[i] = o.FDSelect(glyph.ID(i))
+			}
+			parts = append(parts, []byte(fmt.Sprint(*o.ROS, o.GIDToCID, o.FontMatrices, fds)))
 		}
 	}
 	return f1Tok(parts...)
@@ -307,6 +324,11 @@ func f1BuildCmap(recipe string, n int) cmap.Table {
 	if recipe == "-" || recipe == "" {
 		return nil
 	}
+	var extra []string
+	if i := strings.IndexByte(recipe, '/'); i >= 0 {
+		extra = strings.Split(recipe[i+1:], "/")
+		recipe = recipe[:i]
+	}
 	var g [10]int
 	p := strings.Split(recipe, ".")
 	for i := 0; i < 10 && i < len(p); i++ {
@@ -324,10 +346,39 @@ func f1BuildCmap(recipe string, n int) cmap.Table {
 		m['A'] = glyph.ID(n - 1)
 	}
 	sub := m.Encode(0)
-	return cmap.Table{
+	t := cmap.Table{
 		{PlatformID: 0, EncodingID: 3}: sub,
 		{PlatformID: 3, EncodingID: 1}: sub,
 	}
+	// "/mK": K Macintosh Roman subtables (platform 1, encoding 0) for languages 0..K-1 with different
+	// data; "/u": full-repertoire subtables (0,4) and (3,10) as well
+	for _, fl := range extra {
+		switch {
+		case len(fl) == 2 && fl[0] == 'm':
+			for lang := 0; lang < int(fl[1]-'0'); lang++ {
+				mm := cmap.Format4{}
+				for c, g := range m {
+					if c < 128 {
+						mm[c] = g
+					}
+				}
+				mm[uint16(0x30+lang)] = glyph.ID(1 + lang%max(n-1, 1))
+				t[cmap.Key{PlatformID: 1, EncodingID: 0, Language: uint16(lang)}] = mm.Encode(uint16(lang))
+			}
+		case fl == "u":
+			m12 := cmap.Format12{}
+			for c, g := range m {
+				m12[uint32(c)] = g
+			}
+			if n > 1 {
+				m12[0x1F600] = glyph.ID(n - 1)
+			}
+			s12 := m12.Encode(0)
+			t[cmap.Key{PlatformID: 0, EncodingID: 4}] = s12
+			t[cmap.Key{PlatformID: 3, EncodingID: 10}] = s12
+		}
+	}
+	return t
 }
 
 func f1CmapToken(t cmap.Table) string {
@@ -391,9 +442,31 @@ func f1EmptyGtab(recipe string, gsub bool) *gtab.Info {
 // f1CodecStable: layout-table recipes the gtab codec returns unchanged (all of them since d444265)
 func f1CodecStable(recipe string) bool { return true }
 
+// f1ScriptList2: several languages of one script, and a second script
+func f1ScriptList2() gtab.ScriptListInfo {
+	l := gtab.ScriptListInfo{}
+	for _, t := range []string{"und-Latn-x-latn", "de-Latn-x-latn-DEU", "tr-Latn-x-latn-TRK", "ro-Latn-x-latn-ROM", "und-Grek-x-grek", "und-Zzzz-x-dflt"} {
+		l[language.MustParse(t)] = &gtab.Features{Required: 0xFFFF, Optional: []gtab.FeatureIndex{0, 1}}
+	}
+	return l
+}
+
 func f1BuildGsub(recipe string, n int) *gtab.Info {
 	if strings.HasPrefix(recipe, "e") {
 		return f1EmptyGtab(recipe, true)
+	}
+	if recipe == "2" && n >= 8 {
+		return &gtab.Info{
+			ScriptList:  f1ScriptList2(),
+			FeatureList: []*gtab.Feature{{Tag: "smcp", Lookups: []gtab.LookupIndex{0}}, {Tag: "liga", Lookups: []gtab.LookupIndex{1}}},
+			LookupList: []*gtab.LookupTable{
+				{Meta: &gtab.LookupMetaInfo{LookupType: 1},
+					Subtables: []gtab.Subtable{&gtab.Gsub1_1{Cov: coverage.Set{1: true, 2: true, 3: true, 5: true}, Delta: 1}}},
+				{Meta: &gtab.LookupMetaInfo{LookupType: 4},
+					Subtables: []gtab.Subtable{&gtab.Gsub4_1{Cov: coverage.Table{1: 0, 2: 1, 4: 2},
+						Repl: [][]gtab.Ligature{{{In: []glyph.ID{2, 3}, Out: 6}, {In: []glyph.ID{2}, Out: 5}}, {{In: []glyph.ID{1}, Out: 7}}, {{In: []glyph.ID{4}, Out: 3}}}}}},
+			},
+		}
 	}
 	if recipe == "" || recipe == "-" || n < 3 {
 		return nil
@@ -413,6 +486,19 @@ func f1BuildGsub(recipe string, n int) *gtab.Info {
 func f1BuildGpos(recipe string, n int) *gtab.Info {
 	if strings.HasPrefix(recipe, "e") {
 		return f1EmptyGtab(recipe, false)
+	}
+	if recipe == "2" && n >= 8 { // kerning pairs sharing their first glyph
+		pairs := gtab.Gpos2_1{}
+		for l := 1; l <= 4; l++ {
+			for rr := 1; rr <= 5; rr++ {
+				pairs[glyph.Pair{Left: glyph.ID(l), Right: glyph.ID(rr)}] = &gtab.PairAdjust{First: &gtab.GposValueRecord{XAdvance: funit.Int16(-10*l - rr)}}
+			}
+		}
+		return &gtab.Info{
+			ScriptList:  f1ScriptList2(),
+			FeatureList: []*gtab.Feature{{Tag: "kern", Lookups: []gtab.LookupIndex{0}}, {Tag: "dist", Lookups: []gtab.LookupIndex{0}}},
+			LookupList:  []*gtab.LookupTable{{Meta: &gtab.LookupMetaInfo{LookupType: 2}, Subtables: []gtab.Subtable{pairs}}},
+		}
 	}
 	if recipe == "" || recipe == "-" || n < 3 {
 		return nil
@@ -434,6 +520,13 @@ func f1BuildGpos(recipe string, n int) *gtab.Info {
 func f1BuildGdef(recipe string, n int) *gdef.Table {
 	if recipe == "e0" {
 		return &gdef.Table{}
+	}
+	if recipe == "2" && n >= 8 { // many glyphs per class, mark attachment classes, two mark glyph sets
+		return &gdef.Table{
+			GlyphClass:      classdef.Table{1: 1, 2: 1, 3: 3, 4: 3, 5: 2, 7: 1},
+			MarkAttachClass: classdef.Table{3: 1, 4: 2},
+			MarkGlyphSets:   []coverage.Set{{3: true, 4: true}, {4: true}},
+		}
 	}
 	if recipe == "" || recipe == "-" || n < 3 {
 		return nil
@@ -1160,9 +1253,20 @@ func f1GenFont(c *Ctx) f1FontRecipe {
 			p[i] = strconv.Itoa(x)
 		}
 		rcm = strings.Join(p, ".")
+		switch r.Intn(6) {
+		case 0:
+			rcm += "/m2"
+		case 1:
+			rcm += "/m3/u"
+		case 2:
+			rcm += "/u"
+		}
+		c.Stat("cmap subtables", strings.TrimLeft(rcm[strings.IndexAny(rcm+"/", "/"):], "/")+" ")
 	}
 	opt := func() string {
-		switch r.Intn(8) {
+		switch r.Intn(9) {
+		case 8:
+			return "2"
 		case 0, 1:
 			return "1"
 		case 2, 3:
@@ -1172,7 +1276,7 @@ func f1GenFont(c *Ctx) f1FontRecipe {
 		}
 		return "-"
 	}
-	rgsub, rgpos, rgdef := opt(), opt(), Pick(r, []string{"-", "-", "1", "e0"})
+	rgsub, rgpos, rgdef := opt(), opt(), Pick(r, []string{"-", "-", "1", "e0", "2"})
 	c.Stat("GSUB recipe", rgsub)
 	c.Stat("GPOS recipe", rgpos)
 	c.Stat("GDEF recipe", rgdef)
@@ -1183,6 +1287,9 @@ func f1GenFont(c *Ctx) f1FontRecipe {
 		fm = matrix.Matrix{q, 0, 0, q, 0, 0}
 	} else {
 		fm = matrix.Matrix(Pick(r, f1MatrixPool))
+		if kind == 'k' && r.Bool() { // scale in the per-FD matrices only
+			fm = matrix.Identity
+		}
 		if r.Bool() {
 			upem = 1000
 		}
@@ -1647,6 +1754,30 @@ func init() {
 				}
 			}
 		}
+		// CID-keyed CFF: {top matrix identity, 0.001} x {FD matrices identity, scaled, different} x 1..3 FDs,
+		// with colliding-key cmap and layout tables
+		for v := 0; v < 18; v++ {
+			rec := f1GenFont(c)
+			n := 8 + v
+			rec.rgl = uint64(v%3 + 12*(v/3%3) + 36*v) // seed%3: FD matrices, seed/12%3: number of FDs
+			o := f1BuildOutlines('k', n, rec.rgl)
+			ws := make([]float64, n)
+			for i := range ws {
+				ws[i] = float64(300 + 50*(i%7))
+			}
+			f1SetWidths(o, ws, false)
+			rec.font.Outlines = o
+			rec.font.FontMatrix = matrix.Matrix{0.001, 0, 0, 0.001, 0, 0}
+			if v/9 == 1 {
+				rec.font.FontMatrix = matrix.Identity
+			}
+			rec.rcm = "1.2.3.4.5.6.7.3.2.1" + []string{"", "/m2", "/m3/u"}[v%3]
+			rec.rgsub, rec.rgpos, rec.rgdef = []string{"2", "1", "-"}[v%3], []string{"-", "2", "e1"}[v%3], []string{"2", "-", "1"}[v%3]
+			rec.font.CMapTable = f1BuildCmap(rec.rcm, n)
+			rec.font.Gsub, rec.font.Gpos, rec.font.Gdef = f1BuildGsub(rec.rgsub, n), f1BuildGpos(rec.rgpos, n), f1BuildGdef(rec.rgdef, n)
+			f1EmitFont(c, rec, true)
+			c.Stat("sweep", "CID matrices x FDs x colliding keys")
+		}
 		for c.evals < c.N {
 			if c.Rng.Chance(3, 5) {
 				f1EmitFont(c, f1GenFont(c), true)
@@ -1687,6 +1818,10 @@ func f1EmitFont(c *Ctx, rec f1FontRecipe, withDerive bool) {
 	reps := 3
 	if c.Rng.Chance(1, 40) {
 		reps = 200
+	}
+	if strings.Contains(rec.rcm, "/m") || rec.rgsub == "2" || rec.rgpos == "2" || rec.rgdef == "2" {
+		reps = max(reps, 60) // colliding sort-key prefixes: map order must not show in the bytes
+		c.Stat("font.twice", "60+ writes (colliding keys)")
 	}
 	c.Case(Direct, "font.twice", args+fmt.Sprintf(" reps=%d", reps), true)
 }
